@@ -63,6 +63,9 @@ class FnTrans:
         self.name = decl["name"]
         self.tmap = job.get("types", {})
         self.counter = {}
+        self.helpers = []        # (text) loop helper definitions emitted before the function
+        self.nloops = 0
+        self._loopctx = None     # inside a loop body: dict(carried=[c names], ret_type=...)
         self.members = job.get("members", {}).get(self.name, {})   # member name -> (lean name, lean type)
         self.params = []        # (cname, leanname, leantype, kind) kind in val|out
         self.defaults = []
@@ -86,6 +89,7 @@ class FnTrans:
             q = q[:-1].strip(); kind = "out"
         base = {"double": "Rat", "int": "Int", "bool": "Bool", "unsigned int": "Nat", "size_t": "Nat",
                 "unsigned long": "Nat", "Point": "Pt", "unsigned": "Nat"}
+        base.update({"Polygon": "List Pt", "std::vector<Point>": "List Pt", "PolygonInterface": "List Pt"})
         base.update(self.tmap)
         if q not in base:
             raise Unsupported("%s: unsupported type %r" % (self.name, qt))
@@ -168,6 +172,8 @@ class FnTrans:
                 raise Unsupported("%s: member %s of this not mapped" % (self.name, nm))
             t, ty, p = self.expr(base, env)
             fld = n["name"]
+            if ty == "List Pt" and fld == "ps":
+                return t, ty, p
             fty = self.job.get("fields", {}).get((ty, fld))
             if ty == "Pt" and fld in ("x", "y"): fty = "Rat"
             if fty is None: raise Unsupported("%s: field %s of %s" % (self.name, fld, ty))
@@ -366,7 +372,11 @@ class FnTrans:
             if lhs.get("kind") != "DeclRefExpr": raise Unsupported("%s: assignment target" % self.name)
             cn = lhs["referencedDecl"]["name"]
             if cn not in env: raise Unsupported("%s: assignment to unknown %s" % (self.name, cn))
-            t, ty, p = self.expr(s["inner"][1], env)
+            rhs = s["inner"][1]
+            if k == "CompoundAssignOperator" and env[cn]["type"] == "Bool":
+                # bool |= (bool expr): the rhs is promoted to int in the AST; strip the promotion
+                while rhs.get("kind") == "ImplicitCastExpr" and rhs.get("castKind") == "IntegralCast": rhs = rhs["inner"][0]
+            t, ty, p = self.expr(rhs, env)
             if k == "CompoundAssignOperator":
                 op = s["opcode"][:-1]
                 cur = env[cn]["lean"]
@@ -384,6 +394,8 @@ class FnTrans:
             v, pp = nxt(env)
             head = "let %s : %s := %s\n%s" % (ln, ty, t, pad)
             return head + v, head + (("(%s) &&\n%s" % (p, pad)) if p else "") + pp
+        if k == "ForStmt":
+            return self.for_stmt(s, rest, env, cont, ind)
         if k == "UnaryOperator" and s.get("opcode") in ("++", "--"):
             tgt = s["inner"][0]
             while tgt.get("kind") in ("ParenExpr",): tgt = tgt["inner"][0]
@@ -404,8 +416,12 @@ class FnTrans:
                 t, ty, p = self.expr(inner[0], env)
                 if ty != self.ret_type: raise Unsupported("%s: return type %s vs %s" % (self.name, ty, self.ret_type))
                 r = self.ret_tuple(t, env)
+                if self._loopctx is not None:
+                    return "(some (%s), %s)" % (r, self.carried_tuple(env)), (p or "true")
                 return ("some (%s)" % r if getattr(self, "_retwrap", None) else r), (p or "true")
             r = self.ret_tuple(None, env)
+            if self._loopctx is not None:
+                return "(some (%s), %s)" % (r, self.carried_tuple(env)), "true"
             return ("some (%s)" % r if getattr(self, "_retwrap", None) else r), "true"
         if k == "IfStmt":
             parts = [c for c in s["inner"] if isinstance(c, dict)]
@@ -474,6 +490,91 @@ class FnTrans:
         # expression statement without effect we understand
         raise Unsupported("%s: statement kind %s" % (self.name, k))
 
+    def carried_tuple(self, env):
+        cs = self._loopctx["carried"]
+        if not cs: return "()"
+        vals = [env[c]["lean"] for c in cs]
+        return vals[0] if len(vals) == 1 else "(" + ", ".join(vals) + ")"
+
+    def for_stmt(self, s, rest, env, cont, ind):
+        """for (T i = e0; i < bound; i++ / ++i) body  with early `return` allowed in body.
+        Emitted as a structurally recursive helper on fuel = bound - e0 carrying the variables the
+        body assigns; the result is (Option <function result>, carried state)."""
+        if self._loopctx is not None: raise Unsupported("%s: nested loops" % self.name)
+        if getattr(self, "_retwrap", None): raise Unsupported("%s: loop inside early-exit if" % self.name)
+        pad = "  " * ind
+        parts = s["inner"]
+        init, cond, inc, body = parts[0], parts[2], parts[3], parts[4]
+        if init.get("kind") != "DeclStmt" or len(init["inner"]) != 1: raise Unsupported("%s: for-init" % self.name)
+        iv = init["inner"][0]
+        iname = iv["name"]
+        ity = self.lean_type(iv["type"]["qualType"])[0]
+        if ity != "Nat": raise Unsupported("%s: loop index type %s" % (self.name, ity))
+        i0, t0, p0 = self.expr(iv["inner"][0], env)
+        if cond.get("kind") != "BinaryOperator" or cond.get("opcode") != "<": raise Unsupported("%s: for-cond" % self.name)
+        cl = cond["inner"][0]
+        while cl.get("kind") in ("ImplicitCastExpr", "ParenExpr"): cl = cl["inner"][0]
+        if cl.get("kind") != "DeclRefExpr" or cl["referencedDecl"]["name"] != iname: raise Unsupported("%s: for-cond lhs" % self.name)
+        bound, tb, pb = self.expr(cond["inner"][1], env)
+        if tb != "Nat": raise Unsupported("%s: loop bound type" % self.name)
+        it = inc
+        while it.get("kind") in ("ParenExpr",): it = it["inner"][0]
+        if it.get("kind") != "UnaryOperator" or it.get("opcode") != "++": raise Unsupported("%s: for-inc" % self.name)
+        assigned = self.assigned_vars(body, set())
+        if iname in assigned: raise Unsupported("%s: loop index assigned in body" % self.name)
+        carried = sorted(v for v in assigned if v in env)
+        self.nloops += 1
+        hname = "%s_loop%d" % (self.name, self.nloops)
+        fixed = [(c, env[c]["lean"], env[c]["type"]) for c in env if c not in carried]
+        fixed_sig = " ".join("(%s : %s)" % (l, t) for _, l, t in fixed)
+        fixed_args = " ".join(l for _, l, t in fixed)
+        rty = " × ".join(([self.ret_type] if self.ret_type else []) + [o[2] for o in self.outs]) or "Unit"
+        cty = " × ".join(env[c]["type"] for c in carried) or "Unit"
+        # environment inside the helper: fresh names for index and carried variables
+        benv = dict(env)
+        iln = self.fresh(iname)
+        benv[iname] = dict(lean=iln, type="Nat")
+        cnames = []
+        for c in carried:
+            ln = self.fresh(c); cnames.append(ln); benv[c] = dict(lean=ln, type=env[c]["type"])
+        self._loopctx = dict(carried=carried)
+        def again(e):
+            cargs = " ".join(e[c]["lean"] for c in carried)
+            call = "%s %s loopBound_ fuel_ (%s + 1) %s" % (hname, fixed_args, iln, cargs)
+            callp = "%s_pre %s loopBound_ fuel_ (%s + 1) %s" % (hname, fixed_args, iln, cargs)
+            return call.rstrip(), callp.rstrip()
+        try:
+            bv, bp = self.block([body], benv, again, 3)
+        finally:
+            self._loopctx = None
+        cpat = " ".join(cnames)
+        done = "(none, %s)" % (("(" + ", ".join(cnames) + ")") if len(cnames) > 1 else (cnames[0] if cnames else "()"))
+        ctys = " → ".join(env[c]["type"] for c in carried)
+        arrow = (" → " + ctys) if carried else ""
+        self.helpers.append(
+            "def %s %s (loopBound_ : Nat) : Nat → Nat%s → Option (%s) × (%s)\n  | 0, %s%s => %s\n  | fuel_ + 1, %s%s =>\n      %s\n\n"
+            % (hname, fixed_sig, arrow, rty, cty, iln, (", " + ", ".join(cnames)) if cnames else "", done,
+               iln, (", " + ", ".join(cnames)) if cnames else "", bv) +
+            "def %s_pre %s (loopBound_ : Nat) : Nat → Nat%s → Bool\n  | 0, %s%s => true\n  | fuel_ + 1, %s%s =>\n      %s\n\n"
+            % (hname, fixed_sig, arrow, iln, (", " + ", ".join(cnames)) if cnames else "",
+               iln, (", " + ", ".join(cnames)) if cnames else "", bp))
+        # use in the enclosing function
+        env2 = dict(env)
+        outnames = []
+        for c in carried:
+            ln = self.fresh(c); outnames.append(ln); env2[c] = dict(lean=ln, type=env[c]["type"])
+        v, p = self.block(rest, env2, cont, ind)
+        cargs0 = " ".join(env[c]["lean"] for c in carried)
+        call = "(%s %s %s (%s - %s) %s %s)" % (hname, fixed_args, bound, bound, i0, i0, cargs0)
+        callp = "(%s_pre %s %s (%s - %s) %s %s)" % (hname, fixed_args, bound, bound, i0, i0, cargs0)
+        lam = "fun %s => " % (("(" + ", ".join(outnames) + ")") if len(outnames) > 1 else (outnames[0] if outnames else "_"))
+        wrap = "some (r_)" if getattr(self, "_retwrap", None) else None
+        val = "loopExit %s (%s\n%s  %s)" % (call, lam, pad, v)
+        pre = "%s &&\n%sloopExitPre %s (%s\n%s  %s)" % (callp, pad, call, lam, pad, p)
+        pc = self.conj(p0, pb)
+        if pc: pre = "(%s) &&\n%s%s" % (pc, pad, pre)
+        return val, pre
+
     def translate(self):
         env = {}
         for (cn, ln, lt, kind) in self.params:
@@ -494,7 +595,8 @@ class FnTrans:
             return self.ret_tuple(None, e), "true"
         val, pre = self.block(body.get("inner", []), env, end, 1)
         rty = " × ".join(([self.ret_type] if self.ret_type else []) + [o[2] for o in self.outs]) or "Unit"
-        out = "def %s %s : %s :=\n  %s%s\n\n" % (self.name, " ".join(sig), rty, pre_lets, val)
+        out = "".join(self.helpers)
+        out += "def %s %s : %s :=\n  %s%s\n\n" % (self.name, " ".join(sig), rty, pre_lets, val)
         out += "def %s_pre %s : Bool :=\n  %s%s\n\n" % (self.name, " ".join(sig), pre_lets, pre)
         return out
 
